@@ -575,7 +575,7 @@ pub fn deep_first_scope(rep: &mut Report) {
 /// entry points must agree, and groups that did not participate in the reported match must be None.
 pub fn deep_attempt_scope(rep: &mut Report, tag: &str, thorough: bool) {
     use crate::util::*;
-    let sizes: &[usize] = if thorough { &[1_000, 100_000, 720_000, 3_000_000] } else { &[1_000, 100_000, 720_000] };
+    let sizes: &[usize] = if thorough { &[1_000, 100_000, 720_000, 3_000_000, 6_000_000] } else { &[1_000, 100_000, 720_000, 3_000_000] };
     // (pattern, number of groups, index of the group that holds the final "b" or usize::MAX)
     let pats: [(&str, usize, usize); 5] = [
         ("x(y)(?:(a)|b)*c|b", 2, usize::MAX),
@@ -584,6 +584,45 @@ pub fn deep_attempt_scope(rep: &mut Report, tag: &str, thorough: bool) {
         ("x(y)(?:(?=(a))a)*c|(b)", 3, 3),
         ("x(y)(a)*c|b", 2, usize::MAX),
     ];
+    // the deep attempt SUCCEEDS and the iteration goes on with the same matcher: the state left behind by a huge match
+    // (backtrack stack, capture slots) must not leak into the next one
+    for &n in sizes {
+        let hay = format!("{}b-aab-b", "a".repeat(n));
+        for (p, groups) in [("(a)*b", 1usize), ("(?:(a)|(c))*b", 2), ("((a))*?b", 2)] {
+            let re = compile(p, "", false).unwrap();
+            let label = format!("/{}/ on \"a\"*{} + \"b-aab-b\"", p, n);
+            rep.case(&label, true);
+            rep.count("deep-attempt-then-more");
+            let cap = |at: Option<usize>| -> String {
+                (1..=groups)
+                    .map(|g| match at {
+                        Some(a) if g == 1 || p.starts_with("((") => format!("{}-{}", a, a + 1),
+                        _ => "_".to_string(),
+                    })
+                    .collect::<Vec<_>>()
+                    .join(";")
+            };
+            let want = format!(
+                "0-{}[{}] {}-{}[{}] {}-{}[{}]",
+                n + 1, cap(if n > 0 { Some(n - 1) } else { None }),
+                n + 2, n + 5, cap(Some(n + 3)),
+                n + 6, n + 7, cap(None)
+            );
+            for e in [Exec::Bt, Exec::BtAscii, Exec::Pk] {
+                if matches!(e, Exec::Pk) && n > 720_000 {
+                    continue;
+                }
+                regress::verif::fuel::reset(u64::MAX);
+                let got = match guarded(std::panic::AssertUnwindSafe(|| fmt_matches(&find_all(&re, e, &hay, 0, 0).0))) {
+                    Ok(t) => t,
+                    Err(m) => format!("panic: {}", m),
+                };
+                if got != want {
+                    rep.violation(&format!("impl-vs-oracle:{}", tag), format!("{}: expected [{}], got [{}]", e.name(), want, if got.len() > 300 { &got[..300] } else { &got }), label.clone());
+                }
+            }
+        }
+    }
     for &n in sizes {
         let hay = format!("xy{}b", "a".repeat(n));
         for (p, groups, bgroup) in pats {
@@ -760,4 +799,64 @@ pub fn dense_candidate_scope(rep: &mut Report, tag: &str) {
         }
     }
     rep.case("dense candidates", true);
+}
+
+/// Leading classes whose complement (or whose own last interval) ends exactly at, one below or two below the ends
+/// of the UTF-8 encoding ranges and of the code space: `[^b-X]`, `q|[^\0-X]`, `[\0-aX]`, `[X-\u{10FFFF}]` for X around
+/// 7F / 7FF / FFFF / 10FFFF / the surrogate gap. The start predicate (first-byte bitmap) must admit the lead byte of
+/// every character the class accepts: prefiltered backtracker vs PikeVM vs the start-predicate model.
+pub fn class_edge_prefix_scope(rep: &mut Report) {
+    use crate::util::*;
+    let edges: [u32; 16] = [0x7E, 0x7F, 0x80, 0x7FE, 0x7FF, 0x800, 0xD7FF, 0xE000, 0xFFFD, 0xFFFE, 0xFFFF, 0x10000, 0x10FFFD, 0x10FFFE, 0x10FFFF, 0xFF];
+    let mut probe: Vec<u32> = vec![0x61, 0x62, 0x71, 0x0];
+    for e in edges {
+        for d in [0i64, -1, 1] {
+            let v = e as i64 + d;
+            if (0..=0x10FFFF).contains(&v) && char::from_u32(v as u32).is_some() {
+                probe.push(v as u32);
+            }
+        }
+    }
+    probe.sort();
+    probe.dedup();
+    for x in edges {
+        if char::from_u32(x).is_none() {
+            continue;
+        }
+        let pats = [
+            format!("[^b-\\u{{{:X}}}]", x),
+            format!("q|[^\\0-\\u{{{:X}}}]", x),
+            format!("[\\0-a\\u{{{:X}}}]", x),
+            format!("[\\u{{{:X}}}-\\u{{10FFFF}}]", x),
+            format!("[^\\u{{{:X}}}-\\u{{10FFFF}}b]", x),
+            format!("(?:[^b-\\u{{{:X}}}]|z)w", x),
+        ];
+        for pat in pats.iter() {
+            for fl in ["u", "iu", "v"] {
+                let Ok(re) = compile(pat, fl, false) else { continue };
+                let cps: Vec<u32> = pat.chars().map(|c| c as u32).collect();
+                if let (Ok(ir1), Ok(sp)) = (
+                    regress::verif::dump_ir_canon(cps.iter().copied(), make_flags(fl, false)),
+                    regress::verif::dump_start_predicate(cps.iter().copied(), make_flags(fl, false)),
+                ) {
+                    rep.tie(format!("startpred {} {}", fl, ir1.replace(' ', "~")), sp);
+                }
+                for &c in &probe {
+                    let ch = char::from_u32(c).unwrap();
+                    let hay = format!("bcd{}w", ch);
+                    rep.count("class-edge-prefix");
+                    let a = crate::ops_engine::run_exec(&re, Exec::Bt, &hay, 0, 4);
+                    let b = crate::ops_engine::run_exec(&re, Exec::Pk, &hay, 0, 4);
+                    if crate::ops_engine::differ(&a.text, &b.text) {
+                        rep.violation(
+                            "impl-vs-impl:C04",
+                            format!("backtracking with prefilter [{}] vs PikeVM [{}]", a.text, b.text),
+                            format!("/{}/{} on {:?}", pat, fl, hay),
+                        );
+                    }
+                }
+                rep.case(&format!("/{}/{}", pat, fl), true);
+            }
+        }
+    }
 }
